@@ -739,7 +739,7 @@ def contracts():
 # the default is validated last (so a constructor succeeds iff the default satisfies the
 # constraints in force)
 # ======================================================================================
-def constructor_contract(cls, kwargs_slots, validate_owner, extra_kwargs=None, slot_rule=None, qual_mod=MOD_P, plain_default=False):
+def constructor_contract(cls, kwargs_slots, validate_owner, extra_kwargs=None, slot_rule=None, qual_mod=MOD_P, plain_default=False, allow_undefined=False):
     """kwargs_slots: {constructor keyword: slot name}."""
     def configure(I):
         I.getattribute_hook = True
@@ -759,7 +759,8 @@ def constructor_contract(cls, kwargs_slots, validate_owner, extra_kwargs=None, s
         kw = {}
         for k in list(kwargs_slots) + ["default", "allow_None"]:
             v = Sym(U.fresh("arg_" + k))
-            st.pc.append(v.t != U.UNDEF)
+            if not (allow_undefined and k in kwargs_slots):
+                st.pc.append(v.t != U.UNDEF)      # (C11 variant: a type-specific argument may be left unspecified)
             kw[k] = v
         st.pc.append(S.is_bool(I, kw["allow_None"].t))
         if plain_default:
@@ -795,7 +796,8 @@ def constructor_contract(cls, kwargs_slots, validate_owner, extra_kwargs=None, s
                     for s in list(kwargs_slots.values()) + ["allow_None"]]
             out.append(("… against the constraints finally in force (validation is the last step)", z3.And(same)))
         return out
-    return FunctionContract("%s:%s.__init__" % (qual_mod, cls), PROP, setup, post, configure=configure, name="%s.__init__" % cls)
+    return FunctionContract("%s:%s.__init__" % (qual_mod, cls), PROP, setup, post, configure=configure,
+                            name="%s.__init__%s" % (cls, "[arguments possibly unspecified]" if allow_undefined else ""))
 
 
 def tuple_length_rule(I, k, kw, f):
